@@ -124,6 +124,7 @@ void init_macros(void);
 void define_macro(char *name, char *buf);
 void undef_macro(char *name);
 Token *preprocess(Token *tok);
+Token *preprocess_pp_tokens(Token *tok);
 
 //
 // parse.c
